@@ -408,6 +408,10 @@ class kFlowDecomp(pathmodel.AbstractPathModelDAG):
             # then we add arbitrary paths (i.e. we repeat the first path) with 0 weights to reach self.k paths.
             paths += [paths[0] for _ in range(self.k - len(paths))]
             weights += [0 for _ in range(self.k - len(weights))]
+            # Report the weights in the requested numeric type (the bottlenecks have the type of the input flow values)
+            if self.weight_type == int and any(w != int(w) for w in weights):
+                return False
+            weights = [self.weight_type(w) for w in weights]
             # self._solution = {
             #     "paths": paths,
             #     "weights": weights,
@@ -421,7 +425,7 @@ class kFlowDecomp(pathmodel.AbstractPathModelDAG):
                 self._solution = {
                     "_paths_internal": paths,
                     "paths": self.G_internal.get_condensed_paths(paths),
-                    "weights": self.path_weights_sol,
+                    "weights": weights,
                 }
             self.set_solved()
             self.solve_statistics = {}
